@@ -120,7 +120,12 @@ pub(super) fn eval_binary_arith_expression(
                 Div => l / r,
                 Rem => l % r,
             };
-            Ok(ConstantValue::Float(a))
+            // infinity and NaN (e.g. division by zero) can't be embedded in .ui nor C++ code
+            if a.is_finite() {
+                Ok(ConstantValue::Float(a))
+            } else {
+                Err(ExpressionError::NonFiniteFloat)
+            }
         }
         (ConstantValue::CString(l), ConstantValue::CString(r)) => match op {
             Add => Ok(ConstantValue::CString(l + &r)),
